@@ -218,34 +218,30 @@ def litLoose (ls : List Lit) (v : Val) : Bool := ls.any (fun l => pyEq l.toVal v
 
 mutual
 def confL (ll lk : Bool) : Ty → Val → Bool
-  | .str, .str _ => true
-  | .int, .int _ => true
-  | .float, .flt _ => true
-  | .bool, .bool _ => true
-  | .none, .null => true
+  | .str, v => match v with | .str _ => true | _ => false
+  | .int, v => match v with | .int _ => true | _ => false
+  | .float, v => match v with | .flt _ => true | _ => false
+  | .bool, v => match v with | .bool _ => true | _ => false
+  | .none, v => match v with | .null => true | _ => false
   | .any, _ => true
   | .union ts, v => confLAny ll lk ts v
-  | .list t, .list xs => confLAll ll lk t xs
-  | .dict k t, .dict kvs => confLKvs ll lk k t kvs
-  | .tuple ts, .tuple xs => confLZip ll lk ts xs
-  | .tupleVar t, .tuple xs => confLAll ll lk t xs
-  | .set t, .set xs => confLAll ll lk t xs
+  | .list t, v => match v with | .list xs => xs.all (fun x => confL ll lk t x) | _ => false
+  | .dict k t, v => match v with
+      | .dict kvs => kvs.all (fun kv => (lk || DKey.conf k kv.1) && confL ll lk t kv.2)
+      | _ => false
+  | .tuple ts, v => match v with | .tuple xs => confLZip ll lk ts xs | _ => false
+  | .tupleVar t, v => match v with | .tuple xs => xs.all (fun x => confL ll lk t x) | _ => false
+  | .set t, v => match v with | .set xs => xs.all (fun x => confL ll lk t x) | _ => false
   | .literal ls, v => if ll then litLoose ls v else ls.any (fun l => l.same v)
-  | .enum c ms, .enum c' n => c == c' && ms.contains n
-  | _, _ => false
+  | .enum c ms, v => match v with | .enum c' n => c == c' && ms.contains n | _ => false
 def confLAny (ll lk : Bool) : List Ty → Val → Bool
   | [], _ => false
   | t :: ts, v => confL ll lk t v || confLAny ll lk ts v
-def confLAll (ll lk : Bool) : Ty → List Val → Bool
-  | _, [] => true
-  | t, x :: xs => confL ll lk t x && confLAll ll lk t xs
-def confLKvs (ll lk : Bool) : KTy → Ty → List (DKey × Val) → Bool
-  | _, _, [] => true
-  | k, t, (key, x) :: xs => (lk || DKey.conf k key) && confL ll lk t x && confLKvs ll lk k t xs
 def confLZip (ll lk : Bool) : List Ty → List Val → Bool
-  | [], [] => true
-  | t :: ts, x :: xs => confL ll lk t x && confLZip ll lk ts xs
-  | _, _ => false
+  | [], xs => xs.isEmpty
+  | t :: ts, xs => match xs with
+    | [] => false
+    | x :: xs => confL ll lk t x && confLZip ll lk ts xs
 end
 
 /-- the specification: strict validator -/
